@@ -283,3 +283,56 @@ func HarnessLiveSwitches() {
 	phase("b", v1)
 	vReach("both-phases")
 }
+
+// C03 "an Expires that does not parse counts as already expired" on the request path, under
+// every cache-policy configuration: whatever the policy lets be stored, a second request for a
+// resource whose answer carried an unparseable (or past) Expires and no usable max-age is never
+// answered without contacting the origin again - also later, after any time has passed, and
+// after a janitor cycle.
+func HarnessUnparseableExpiresPath() {
+	e := newEnv(symChoice(2), 1<<30)
+	ignore := symChoice(2) == 1
+	e.cfg.Proxy.CachePolicy.IgnoreCacheControl.Stage(ignore)
+	e.cfg.Proxy.CachePolicy.IgnoreCacheControl.CommitStaged()
+	vDropPending()
+	vClockFreeze(true)
+	t0 := time.Now()
+	h := hdr("Etag", "\"a\"")
+	switch symChoice(4) {
+	case 0:
+		h["Expires"] = []string{"0"}
+	case 1:
+		h["Expires"] = []string{"0"}
+		h["Cache-Control"] = []string{"no-cache, no-store, must-revalidate"}
+	case 2:
+		h["Expires"] = []string{"Thu, 01 Jan 1970 00:00:00 GMT"}
+	default:
+		h["Expires"] = []string{vTimeString(t0.Add(-time.Hour))}
+	}
+	bodies := []string{"v1", "v2", "v3", "v4", "v5"}
+	for _, b := range bodies {
+		e.o.script = append(e.o.script, originResp{status: 200, header: h, body: []byte(b)})
+	}
+	c1 := e.plain(newReq("GET", "o.test", "/x", "", nil))
+	vAssert(c1.status == 200, "c03.first-response-wrong")
+	if symChoice(2) == 1 {
+		vClockFreeze(false)
+		t1 := time.Now()
+		vAssume(t1.Sub(t0) < 24*time.Hour)
+		vClockFreeze(true)
+		vReach("later")
+	}
+	before := len(e.o.seen)
+	c2 := e.plain(newReq("GET", "o.test", "/x", "", nil))
+	vReach("second-request")
+	vAssert(c2.status == 200, "c03.second-response-wrong")
+	vAssert(len(e.o.seen) > before, "c03.already-expired-response-served-without-origin-contact")
+	// and what it gets is an answer the origin gave to THIS request, not a stored older one
+	fresh := false
+	for i := before; i < len(e.o.seen) && i < len(bodies); i++ {
+		if string(c2.body) == bodies[i] {
+			fresh = true
+		}
+	}
+	vAssert(fresh, "c03.already-expired-response-served-without-origin-contact")
+}
